@@ -953,11 +953,19 @@ func childLeaf(args []string) {
 			break
 		}
 		logf(fmt.Sprintf("leaf engine attempt %d unusable: %v", attempt, err))
+		a.count("leaf_engine_setup_retries", 1)
+		a.mu.Lock()
+		if len(a.res.Samples) < 2 {
+			a.res.Samples = append(a.res.Samples, map[string]interface{}{"leaf_engine_setup_unusable": err.Error()})
+		}
+		a.mu.Unlock()
 		if env != nil && env.engine != nil {
 			env.engine.Close()
 		}
 		env = nil
 	}
+	a.count("leaf_engine_setups", 1)
+	a.count("leaf_engine_setup_retries", 0)
 	if env == nil {
 		a.res.Inconclusive = append(a.res.Inconclusive, "leaf engine setup failed 3 times: "+err.Error())
 		a.write(resFile)
